@@ -621,9 +621,18 @@ func (x *Exec) appendCall(f *frame, in ssa.Value, c *ssa.CallCommon, args []Val)
 		return Val{T: x.havocValue(st, in.Type(), "app")}
 	}
 	if isStruct(et) {
-		x.abstract("append on slice of structs (havoc)")
-		x.havocHeapAll(st)
-		return Val{T: x.havocValue(st, in.Type(), "app")}
+		// elements are objects addressed by elemref: only the field components of the element
+		// type can change; length and freshness of a reallocated backing store are kept
+		x.abstract("append on slice of structs (element contents havocked, length exact)")
+		for _, cn := range x.allFieldComps(et) {
+			st.heap[cn] = x.havocConst(cn, x.comps[cn])
+		}
+		newRef := x.define(x.fresh("new"), "Int", sx("+", st.allocTop, "1"))
+		st.allocTop = newRef
+		res := x.havocValue(st, in.Type(), "app")
+		x.assume(st, eq(sx("sllen", res), sx("+", sx("sllen", s), sx("sllen", a))))
+		x.assume(st, or(eq(sx("sbase", res), sx("sbase", s)), eq(sx("sbase", res), newRef)))
+		return Val{T: res}
 	}
 	cn, srt := x.elemComp(et)
 	h := x.heapGet(st, cn, srt)
